@@ -4,6 +4,7 @@
 // omega {1, 1/2}, num_steps {1,2}, skip_singular {off,on}, velocity unit filter {none, dof 0}; plus the life-cycle BFS.
 #include <c08_block.hpp>
 #include <kernel/solver/amavanka.hpp>
+#include <kernel/lafem/tuple_matrix.hpp>
 
 using namespace c08b;
 
@@ -154,13 +155,105 @@ namespace
       run_subject(c, S->N, kname, where, make, orc, true, lc_depth);
     }
   }
+
+  // ---------------------------------------------------------------------------------------- (c) TupleMatrix of CSR blocks (2 x 2, with a pressure-pressure block)
+  struct TupleBox
+  {
+    typedef LAFEM::SparseMatrixCSR<double, Index> M;
+    typedef LAFEM::DenseVector<double, Index> V;
+    typedef LAFEM::TupleMatrix<LAFEM::TupleMatrixRow<M, M>, LAFEM::TupleMatrixRow<M, M>> Mat;
+    typedef LAFEM::TupleVector<V, V> Vec;
+    typedef LAFEM::TupleFilter<LAFEM::UnitFilter<double, Index>, LAFEM::NoneFilter<double, Index>> Fil;
+    const Saddle& S; const Dense& K;
+    Mat mat; Fil filter;
+    std::shared_ptr<Solver::AmaVanka<Mat, Fil>> prec;
+    TupleBox(const Saddle& s, const Dense& k, const std::vector<char>& fixed_vb) : S(s), K(k)
+    {
+      std::vector<char> pc(size_t(s.np) * s.np, 0); for(int i = 0; i < s.np; ++i) pc[size_t(i) * s.np + i] = 1;
+      mat.template at<0, 0>() = SaddleBox<1>::make_block<M>(s.nvb, s.nvb, s.pa);
+      mat.template at<0, 1>() = SaddleBox<1>::make_block<M>(s.nvb, s.np, s.pb);
+      mat.template at<1, 0>() = SaddleBox<1>::make_block<M>(s.np, s.nvb, s.pd);
+      mat.template at<1, 1>() = SaddleBox<1>::make_block<M>(s.np, s.np, pc);
+      LAFEM::UnitFilter<double, Index> fv{Index(s.nvb)};
+      for(int b = s.nvb - 1; b >= 0; --b) if(fixed_vb[b]) fv.add(Index(b), 0.0);
+      filter.template at<0>() = std::move(fv);
+      set_values(0);
+    }
+    void set_values(int ver)
+    {
+      const int nv = S.nv, N = S.N;
+      auto fill = [&](M& m, int roff, int coff) { for(Index i = 0; i < m.rows(); ++i) for(Index p = m.row_ptr()[i]; p < m.row_ptr()[i + 1]; ++p) m.val()[p] = double(K.at(ver, roff + int(i), coff + int(m.col_ind()[p]))); };
+      fill(mat.template at<0, 0>(), 0, 0); fill(mat.template at<0, 1>(), 0, nv); fill(mat.template at<1, 0>(), nv, 0); fill(mat.template at<1, 1>(), nv, nv);
+      (void)N;
+    }
+    std::vector<double> apply(const LVec& d, double prefill, Status& st, bool& unch)
+    {
+      Vec vin(V(Index(S.nv)), V(Index(S.np))), vout(V(Index(S.nv)), V(Index(S.np)));
+      double* iv = vin.template at<0>().elements(); double* ip = vin.template at<1>().elements();
+      double* ov = vout.template at<0>().elements(); double* op = vout.template at<1>().elements();
+      for(int i = 0; i < S.nv; ++i) { iv[i] = double(d[i]); ov[i] = prefill; }
+      for(int i = 0; i < S.np; ++i) { ip[i] = double(d[S.nv + i]); op[i] = prefill; }
+      st = prec->apply(vout, vin);
+      unch = true;
+      for(int i = 0; i < S.nv; ++i) if(iv[i] != double(d[i])) unch = false;
+      for(int i = 0; i < S.np; ++i) if(ip[i] != double(d[S.nv + i])) unch = false;
+      std::vector<double> out(S.N);
+      for(int i = 0; i < S.nv; ++i) out[i] = ov[i];
+      for(int i = 0; i < S.np; ++i) out[S.nv + i] = op[i];
+      return out;
+    }
+  };
+
+  void tuple_cases(verif::Ctx& c, int lc_depth)
+  {
+    const std::vector<Layout> lays = layouts();
+    for(size_t li = 0; li < lays.size(); ++li)
+    for(int io = 0; io < 2; ++io) for(int steps = 1; steps <= 2; ++steps) for(int skip = 0; skip < 2; ++skip) for(int fix = 0; fix < 2; ++fix)
+    {
+      if(!c.thorough && skip == 1 && !(io == 0 && steps == 1)) continue;
+      if(!c.want()) continue;
+      const Layout& L = lays[li];
+      const double omega = io ? 0.5 : 1.0;
+      auto S = std::make_shared<Saddle>(); S->build(L, 1, int(li % 2));
+      // a pressure-pressure block C (diagonal): K = [A B; D C]
+      auto K = std::make_shared<Dense>(S->K);
+      for(int ver = 0; ver < 4; ++ver) for(int p = 0; p < S->np; ++p) K->k[ver][size_t(S->nv + p) * S->N + S->nv + p] = -LD(1 + (p + ver / 2) % 2) / 2.0L;
+      std::vector<char> fixed_vb(L.nvb, 0); if(fix) fixed_vb[0] = 1;
+      const std::vector<char> fixed = fixed_scalar(*S, fixed_vb);
+      std::vector<std::vector<int>> mv, mp, macros;
+      for(const auto& e : L.el) { mv.push_back(e.V); mp.push_back(e.P); macros.push_back(S->scalar_dofs(e.V, e.P)); }
+      const std::string kname = "AmaVanka TupleMatrix<CSR 2x2> user-macros";
+      const std::string where = kname + " layout=[" + L.name + "]" + par_str(omega, steps, skip != 0, fix != 0);
+      c.desc([&]{ return where; });
+      c.nontrivial(verif::Hash().str("tuple").pod(li).pod(io).pod(steps).pod(skip).pod(fix).get());
+      c.outcome(kname);
+      Factory make = [=]() -> Live
+      {
+        auto box = std::make_shared<TupleBox>(*S, *K, fixed_vb);
+        box->prec = Solver::new_amavanka(box->mat, box->filter, omega, Index(steps));
+        box->prec->push_macro_dofs(make_graph(Index(S->nvb), mv));
+        box->prec->push_macro_dofs(make_graph(Index(S->np), mp));
+        box->prec->set_skip_singular(skip != 0);
+        Live l; TupleBox* b = box.get();
+        struct Keep { std::shared_ptr<Saddle> s; std::shared_ptr<Dense> k; std::shared_ptr<TupleBox> b; };
+        l.keep = std::shared_ptr<void>(new Keep{S, K, box}, [](void* p){ delete static_cast<Keep*>(p); });
+        l.init_symbolic = [b]{ b->prec->init_symbolic(); }; l.init_numeric = [b]{ b->prec->init_numeric(); };
+        l.done_numeric = [b]{ b->prec->done_numeric(); }; l.done_symbolic = [b]{ b->prec->done_symbolic(); };
+        l.update = [b](int v){ b->set_values(v); };
+        l.apply = [b](const LVec& d, double pf, Status& st, bool& u){ return b->apply(d, pf, st, u); };
+        return l;
+      };
+      OracleFn orc = [=](int v, const LVec& d, LVec& out) { return oracle_amavanka(*K, v, macros, omega, steps, skip != 0, fixed, d, out); };
+      run_subject(c, S->N, kname, where, make, orc, true, lc_depth);
+    }
+  }
 }
 
 int main(int argc, char** argv)
 {
   Runtime::ScopeGuard guard(argc, argv);
   verif::Spec spec; spec.property = "C08"; spec.harness = "c08_amavanka";
-  spec.rule = "case = (matrix kind {CSR, SaddlePoint<BCSR<2,2>,BCSR<2,1>,BCSR<1,2>>}, macro layout, user/automatic macros, diagonal variant, omega, num_steps, skip_singular, velocity unit filter); "
+  spec.rule = "case = (matrix kind {CSR, SaddlePoint<BCSR<2,2>,BCSR<2,1>,BCSR<1,2>>, TupleMatrix of 2x2 CSR blocks with a pressure-pressure block}, macro layout, user/automatic macros, diagonal variant, omega, num_steps, skip_singular, velocity unit filter); "
     "per case apply on all unit vectors + a dense vector vs the dense long double operator omega*diag(1/#macros)*sum P^T K_m^-1 P (see c08_block.hpp), output prefill, input unchanged, "
     "linearity, then BFS over all life-cycle histories {init_symbolic, init_numeric (also repeated without done_numeric), apply, in-place update of the A-diagonal / of all values, "
     "done_numeric, done_symbolic} replayed on fresh objects, state key = matrix values + phase + versions + 'apply since init' bits + capped init_numeric count";
@@ -211,5 +304,6 @@ int main(int argc, char** argv)
     }
     // (b) blocked saddle point (SaddlePointMatrix with CSR sub-blocks is not supported by AmaVanka: the class documentation lists BCSR only)
     saddle_cases<2>(c, lc_depth);
+    tuple_cases(c, lc_depth);
   });
 }
